@@ -9,6 +9,7 @@
  *   probe                       run the fixed probe evaluation (apply "probe" in object `probe`)
  *   input <oid> <text>          what the backend does with a pending input_to: call_function_interactive()
  *                               inside a driver-level error context
+ *   injectsafe <oid> <fn> <n>   like inject, but the evaluation is the driver's safe_apply(fn, ob, n) with n pushed numbers
  *   inject <oid> <fn> [<reg> <oid>]
  *        N = number of instructions of the fault-free evaluation  <oid>-><fn>()  (preceded by <oid>->prep()).
  *        Then for every k in 1..N: prep, snapshot, evaluation with the fault raised at instruction k inside a
@@ -28,6 +29,7 @@
 #include <sys/stat.h>
 #include "src/interpret.h"
 #include "lib/efuns/call_out.h"
+#include "lpc/functional.h"
 
 extern long verif_fault_countdown;
 extern unsigned long verif_instruction_count;
@@ -43,6 +45,8 @@ extern void reset_load_object_limits (void);
 extern void reset_destruct_object_limits (void);
 
 static long c05_maxk = 0;	/* 0 = all k */
+static funptr_t *safe_fp = 0;	/* non-null: the evaluation is safe_call_function_pointer() */
+static int safe_nargs = -1;	/* >= 0: the evaluation is safe_apply() from driver level with that many arguments */
 
 static const char *oname (object_t * ob)
 {
@@ -261,7 +265,28 @@ static unsigned long evaluate_k (object_t * ob, const char *fn, long k, const ch
           eval_cost = CONFIG_INT (__MAX_EVAL_COST__);
           verif_instruction_count = 0;
           verif_fault_countdown = k;
-          if (!strcmp (fn, "<call_out>"))
+          if (safe_nargs >= 0 && safe_fp)
+            {
+              /* the driver's other safe entry (socket callbacks): safe_call_function_pointer() */
+              for (int i = 0; i < safe_nargs; i++)
+                push_number (i + 1);
+              (void) safe_call_function_pointer (safe_fp, safe_nargs);
+              verif_fault_countdown = 0;
+              count = verif_instruction_count;
+              snprintf (res, sizeof res, "done co");
+            }
+          else if (safe_nargs >= 0)
+            {
+              /* what the driver's C callers do (window_size, resolve callbacks, ed, master applies): push the
+                 arguments, safe_apply(); the value it returns is not used */
+              for (int i = 0; i < safe_nargs; i++)
+                push_number (i + 1);
+              (void) safe_apply (shared, ob, safe_nargs, ORIGIN_DRIVER);
+              verif_fault_countdown = 0;
+              count = verif_instruction_count;
+              snprintf (res, sizeof res, "done co");
+            }
+          else if (!strcmp (fn, "<call_out>"))
             {
               /* the backend's timer tick: the real call_out() of lib/efuns/call_out.c with its own recovery point */
               current_time += 2;
@@ -448,6 +473,43 @@ static int c05_cmd (char *line)
       evaluate_k (ob, tok[2], 0, 0, 0, out, sizeof out);
       vh_out ("run %s", out);
       return 1;
+    }
+  safe_nargs = -1;
+  safe_fp = 0;
+  if (!strcmp (tok[0], "injectsafefp") && n == 4)
+    {
+      /* <oid>-><fn>() returns the function pointer to call */
+      static char *ij = "inject";
+      object_t *ob = vh_obj (tok[1]);
+      error_context_t econ;
+      svalue_t *ret = 0;
+      char *shared = make_shared_string (tok[2]);
+      if (ob && save_context (&econ))
+        {
+          if (!setjmp (econ.context))
+            ret = apply (shared, ob, 0, ORIGIN_DRIVER);
+          else
+            restore_context (&econ);
+          pop_context (&econ);
+        }
+      free_string (shared);
+      if (!ret || ret->type != T_FUNCTION)
+        {
+          vh_out ("injectsafefp %s !nofp", tok[1]);
+          return 1;
+        }
+      safe_fp = ret->u.fp;
+      safe_fp->hdr.ref++;
+      safe_nargs = atoi (tok[3]);
+      tok[0] = ij;
+      n = 3;
+    }
+  if (!strcmp (tok[0], "injectsafe") && n == 4)
+    {
+      static char *ij = "inject";
+      safe_nargs = atoi (tok[3]);
+      tok[0] = ij;
+      n = 3;
     }
   if (!strcmp (tok[0], "injectco") && n == 1)
     {
